@@ -347,8 +347,9 @@ class Lexer:
         Return a tokenized string version of an input series of tokens.
         """
         parts = ['"']
-        for p in tokens:
-            if p.prev_white:
+        for i, p in enumerate(tokens):
+            # Leading white space is not part of the argument's spelling.
+            if i > 0 and p.prev_white:
                 parts.append(" ")
             parts.append(p.sanitized_str())
         parts.append('"')
